@@ -20,12 +20,19 @@ def ddmin(items, test):
     return items
 
 
-def shrink_source(src, args, still_fails, max_rounds=3):
-    """still_fails(src, args) -> bool ; must be True for the input"""
+def shrink_source(src, args, still_fails, max_rounds=3, budget_s=40):
+    """still_fails(src, args) -> bool ; must be True for the input.  Bounded in time: a change that makes programs loop turns
+    every probe into a fuel-exhausting run; after `budget_s` seconds no further reduction is attempted (the case found so far is
+    still a failing one)."""
+    import time
+    deadline = time.time() + budget_s
     lines = src.split('\n')
+
+    def probe(ls):
+        return time.time() < deadline and still_fails('\n'.join(ls), args)
     for _ in range(max_rounds):
         before = len(lines)
-        lines = ddmin(lines, lambda ls: still_fails('\n'.join(ls), args))
+        lines = ddmin(lines, probe)
         if len(lines) == before: break
     return '\n'.join(lines), args
 
